@@ -488,6 +488,12 @@ def check_search(m, f, schema, res_wl, res_bound):
                 fill = strip_cast(init[2][1])
                 while fill[0] in ('ctor', 'cast') and fill[2]:
                     fill = strip_cast(fill[2][0] if fill[0] == 'ctor' else fill[2])
+                if fill[0] == 'var' and s.u.decl(fill[1]).get('constq'):
+                    sdn = s.tt._single_def(fill[1]) if hasattr(s, 'tt') else None
+                    if sdn is not None:
+                        fill = strip_cast(s.T(sdn))
+                        while fill[0] in ('ctor', 'cast', 'conv') and len(fill) > 2 and fill[2]:
+                            fill = strip_cast(fill[2][0] if fill[0] == 'ctor' else fill[2])
                 if fill[0] == 'int' or (fill[0] in ('call', 'scall', 'mcall') and 'numeric_limits' in str(fill[1])):
                     odd.append((d, fill))
         if len(odd) == 1:
